@@ -142,16 +142,97 @@ class Check:
         return [o for o in self.obligations if not o[1]]
 
     # ------------------------------------------------------------ build steps
+    # which generated sections a property's model/theorems depend on (Fields, FqConsts: everything)
+    SECTION_PROPS = {
+        "Curve": {"C02", "C03", "C06", "C07", "C10", "C11", "C12", "C14", "C17"},
+        "Maps": {"C06", "C14", "C15", "C16"},
+        "Chains": {"C06", "C14", "C15", "C17"},
+        "MontProg": {"C08"},
+    }
+    ARITH_ALL = {"C01", "C03", "C06", "C07", "C09", "C11", "C12", "C14", "C15"}
+
+    @staticmethod
+    def arith_props(name):
+        """properties concerned by a translated function / equality theorem, by its name"""
+        n = name.lower()
+        if "osswu" in n:
+            return {"C15", "C14", "C06"}
+        if any(k in n for k in ("doublingstep", "doubling_step", "additionstep", "addition_step", "ell")) and "fq" not in n:
+            return {"C03", "C11"}
+        if "expbyx" in n or "exp_by_x" in n or "finalexp" in n or "final_exp" in n:
+            return {"C12", "C03", "C11"}
+        if n.startswith("jac_") or n.startswith("aff_") or "curve_impl" in n or "ec/mod.rs" in n:
+            return {"C01", "C07"}
+        if "fq2" in n or "fq6" in n or "fq12" in n:
+            return {"C09", "C12", "C03", "C11"}
+        return set(Check.ARITH_ALL)
+
     def step_extract(self):
         with Lock("extract"):
             rc, out, dt = sh([sys.executable, os.path.join(VERIF, "extract", "extract.py")])
         self.timing["extract_s"] = round(dt, 2)
-        self.oblige("extract:translator", rc == 0, out.strip()[-400:])
         try:
-            self.extract_manifest = json.load(open(os.path.join(VERIF, "gen_manifest.json")))["items"]
+            gm = json.load(open(os.path.join(VERIF, "gen_manifest.json")))
+            self.extract_manifest = gm["items"]
+            sections = gm.get("sections", {})
         except Exception:
-            self.extract_manifest = []
-        return rc == 0
+            self.extract_manifest, sections = [], {}
+        if not sections:
+            self.oblige("extract:translator", False, out.strip()[-400:])
+            return False
+        ok = True
+        for sec, st in sections.items():
+            if sec == "Arith":
+                if st == "ok":
+                    continue   # its obligations are the equality theorems (step_genarith)
+                concerned = self.arith_props(st)
+            else:
+                concerned = self.SECTION_PROPS.get(sec)    # None = every property
+            if concerned is None or self.pid in concerned:
+                self.oblige("extract:%s" % sec, st == "ok", "" if st == "ok" else st[:400])
+                ok = ok and st == "ok"
+        return ok
+
+    def step_genarith(self):
+        """equality theorems `generated-from-Rust = hand model` for the straight-line arithmetic; only the ones that
+        concern this property are its obligations, and a failure is attributed to the theorem it occurs in"""
+        if self.pid not in self.ARITH_ALL:
+            return
+        mod = "PP.Props.GenArith"
+        names = [n for n in theorems_in(mod)]
+        mine = [n for n in names if self.pid in self.arith_props(n.split(".")[-1])]
+        if not mine:
+            return
+        with Lock("lake"):
+            rc, out, dt = sh(["lake", "build", mod], cwd=LEAN)
+        self.timing["lake_genarith_s"] = round(dt, 2)
+        if rc == 0:
+            for n in mine:
+                self.oblige("translated=model:%s" % n.split(".")[-1], True)
+            return
+        # attribute errors of PP/Proofs/GenArith.lean to the theorem containing the line
+        src_path = os.path.join(LEAN, "PP", "Proofs", "GenArith.lean")
+        starts = []
+        if os.path.exists(src_path):
+            for ln, line in enumerate(open(src_path).read().split("\n"), 1):
+                m = re.match(r"\s*theorem\s+([\w.']+)", line)
+                if m:
+                    starts.append((ln, m.group(1)))
+        bad = set()
+        unattributed = False
+        for m in re.finditer(r"PP/Proofs/GenArith\.lean:(\d+):\d+: error", out):
+            ln = int(m.group(1))
+            cand = [nm for (st_, nm) in starts if st_ <= ln]
+            if cand:
+                bad.add(cand[-1].replace("_eq", ""))
+            else:
+                unattributed = True
+        if not bad and not unattributed:
+            unattributed = True     # failed elsewhere (e.g. the generated file itself does not compile)
+        for n in mine:
+            short = n.split(".")[-1]
+            broken = unattributed or short in bad or short.replace("_eq", "") in bad
+            self.oblige("translated=model:%s" % short, not broken, tail_errors(out) if broken else "")
 
     def step_driver(self):
         with Lock("lake"):
